@@ -83,15 +83,22 @@ def elideEnd (cw : Char → Nat) (text ell : List Char) (max : Nat) : List Char 
       let sk := scanSkip cw (t.2 - (max - e.2)) kept.reverse 0   -- skip_end_pos
       (dropEnd sk.1 kept ++ ell, (t.2 - sk.2) + e.2)
 
+/-- the content part `write_truncated_start` writes when the last `n` characters of `data` are kept:
+    `truncated_start = if start == 0 { 0 } else { start + count_start_zero_width_chars_bytes(..) }` —
+    zero-width characters are skipped only if the preceding character was removed (`start ≠ 0`,
+    i.e. fewer than all characters are kept). -/
+def keptStart (cw : Char → Nat) (n : Nat) (data : List Char) : List Char :=
+  if n = data.length then data else trimZero cw (takeEnd n data)
+
 /-- `write_truncated_start` (plain text): `dW`, `eW` are the string-level widths of content and
-    ellipsis.  Note the leading zero-width characters of the content are dropped even when nothing
-    is truncated (`truncated_start = start + count_start_zero_width_chars_bytes(..)` is unconditional). -/
+    ellipsis.  Text that fits (`dW ≤ max`: `start = 0`) is written unchanged (since /repo 645211a;
+    before, its leading zero-width characters were dropped). -/
 def writeTruncatedStart (cw : Char → Nat) (dW eW : Nat) (data ell : List Char) (max : Nat) : List Char × Nat :=
   if dW > max then
     let t := scanFit cw (max - eW) data.reverse 0
     let e := scanFit cw max ell.reverse 0
-    (trimZero cw (takeEnd e.1 ell) ++ trimZero cw (takeEnd t.1 data), t.2 + e.2)
-  else (trimZero cw data, dW)
+    (trimZero cw (takeEnd e.1 ell) ++ keptStart cw t.1 data, t.2 + e.2)
+  else (data, dW)
 
 /-- `write_truncated_end` (plain text) -/
 def writeTruncatedEnd (cw : Char → Nat) (dW eW : Nat) (data ell : List Char) (max : Nat) : List Char × Nat :=
